@@ -49,7 +49,7 @@ def _worker(args):
             try:
                 cxs = tasks.run_method_task(P, task[1], task[2], *(task[3:4]))
             except core.Unsupported as e:
-                fi = P.lookup_method(task[1], {"zero": "zero", "add": "__add__", "iadd": "__iadd__", "mul": "__mul__", "rmul": "__rmul__", "fill": "fill", "fill-rollback": "fill", "eq": "__eq__", "ne": "__ne__"}[task[2]])
+                fi = P.lookup_method(task[1], {"zero": "zero", "add": "__add__", "iadd": "__iadd__", "mul": "__mul__", "rmul": "__rmul__", "fill": "fill", "fill-rollback": "fill", "eq": "__eq__", "ne": "__ne__", "copy": "copy"}[task[2]])
                 out["out_of_reach"].append({"function": fi.qualname if fi else str(task), "reason": str(e)})
                 cxs = []
             for cx in cxs:
